@@ -255,11 +255,34 @@ def run_script(methods_by_name: dict, pair_factory, server_proto, impl, client_p
 
                     ops = [o for o in call["ops"] if o != "L"]
                     oi = 0
+                    def post_op(op):
+                        """An operation on a session that has already ended: nothing may reach the wire."""
+                        if op in ("t", "i"):
+                            try:
+                                if m["k"] == "prod":
+                                    sess.tick()
+                                else:
+                                    sess.exchange(AnnotatedBatch(batch=pa.RecordBatch.from_pydict({"a": [1]}, schema=INP)))
+                                obs.append(["post_served"])
+                            except RpcError as e:
+                                obs.append(["closed_error"] if e.error_type == "ProtocolError" else
+                                           ["transport_error"] if e.error_type == "TransportError" else ["err", 0])
+                            except StopIteration:
+                                obs.append(["stop"])
+                            except Exception as e:  # noqa: BLE001
+                                obs.append(["client_exception", type(e).__name__])
+                        elif op == "c":
+                            sess.close()
+                        elif op == "x":
+                            sess.cancel()
+
                     while oi < len(ops):
                         op = ops[oi]
                         oi += 1
                         if ended:
-                            break
+                            state["quiet"] = True
+                            post_op(op)
+                            continue
                         if op == "t":
                             ended = one_tick()
                             if ended == "boom":      # callback raised out of tick(): go to the script's exit op
